@@ -132,6 +132,53 @@ def build_pool(seed, n):
     return sorted(pool)
 
 
+DERIVED_HOWS = ['copy', 'deepcopy', 'pickle', 'pickle-proto0', 'ctor-from-version', 'ctor-from-str-subclass', 'ctor-from-str-of', 'copy-after-hash',
+                'deepcopy-after-compare', 'copy-of-rebound', 'class-of']
+
+
+class _Str(str):
+    """A caller's str subclass (no overrides): the same text must mean the same version."""
+
+
+def derive(ds, s, how):
+    """A Version object holding the value s, obtained otherwise than by Version(s) of a plain str."""
+    import copy
+    import pickle
+    v = ds.Version(s)
+    if how == 'copy':
+        return copy.copy(v)
+    if how == 'deepcopy':
+        return copy.deepcopy(v)
+    if how == 'pickle':
+        return pickle.loads(pickle.dumps(v))
+    if how == 'pickle-proto0':
+        return pickle.loads(pickle.dumps(v, 0))
+    if how == 'ctor-from-version':
+        return ds.Version(v)
+    if how == 'ctor-from-str-subclass':
+        return ds.Version(_Str(s))
+    if how == 'ctor-from-str-of':
+        return ds.Version(str(v))
+    if how == 'copy-after-hash':
+        hash(v)
+        v == ds.Version('0')
+        return copy.copy(v)
+    if how == 'deepcopy-after-compare':
+        v < ds.Version('1~')
+        v > ds.Version('99:9')
+        return copy.deepcopy(v)
+    if how == 'copy-of-rebound':
+        # the original held another value before; the copy is taken of the object as it is NOW
+        w = ds.Version('7:7.7-7')
+        hash(w)
+        w < v
+        w.full_version = s
+        return copy.deepcopy(w)
+    if how == 'class-of':
+        return type(v)(s)
+    raise AssertionError(how)
+
+
 def nontrivial_pair(a, b):
     return a != b and a[0] == b[0]
 
@@ -169,6 +216,12 @@ def cases(ctx):
                 val = r.choice(['1.0', '1.0-2', '2:7', '1-2-3', '0', '1:0-1'])
             moves.append([attr, val])
         yield {'kind': 'rebind', 'seq': seq, 'bs': [r.choice(pool) for _ in range(4)] + r.sample(seq, 2), 'moves': moves}
+    # operands that are not fresh Version(str) objects: copies (copy / deepcopy / pickle / Version(version)), objects built
+    # from str subclasses, str-subclass operands, objects that sit in sorted() / min / max / set / dict: same relation
+    r = ctx.rng('derived')
+    for i in range(ctx.size(900, 40000)):
+        vs = [r.choice(pool) for _ in range(r.randint(3, 6))]
+        yield {'kind': 'derived', 'vs': vs, 'how': [r.choice(DERIVED_HOWS) for _ in vs], 'touch': r.randint(0, 3)}
     r = ctx.rng('triples')
     for i in range(ctx.size(TRIPLES['quick'], TRIPLES['thorough']) // 50):
         yield {'kind': 'triples', 'vs': [r.choice(pool) for _ in range(52)]}
@@ -293,6 +346,57 @@ def run_case(ctx, case):
                 for b in bs[:3] + [now]:
                     check_pair(ctx, now, b, obj, ds.Version(b))
                 obj.full_version = cur
+    elif kind == 'derived':
+        vs, hows = case['vs'], case['how']
+        try:
+            objs = [derive(ds, s, h) for s, h in zip(vs, hows)]
+        except Exception as e:
+            ctx.violation('derived-object-cannot-be-made/%s' % type(e).__name__, 'making %r raised %r' % (list(zip(vs, hows)), e), case)
+            return
+        for s, h, o in zip(vs, hows, objs):
+            ctx.count('derived:' + h)
+            if str(o) != s:
+                ctx.violation('derived-object-holds-another-value/' + h, 'a Version for %r obtained via %s reads %r' % (s, h, str(o)), case)
+                return
+        if case.get('touch', 0) == 1:
+            for o in objs:
+                hash(o)
+        for i, (a, va) in enumerate(zip(vs, objs)):
+            for j, (b, vb) in enumerate(zip(vs, objs)):
+                check_pair(ctx, a, b, va, vb)
+                check_pair(ctx, a, b, va, ds.Version(b))
+                check_pair(ctx, a, b, ds.Version(a), vb)
+            # a str-subclass operand on the right, and through version_compare
+            b = vs[(i + 1) % len(vs)]
+            ref = dpkgver.compare(a, b)
+            ctx.mon('M.derived')
+            got = (va < _Str(b), va == _Str(b), va > _Str(b), sgn(ds.version_compare(_Str(a), _Str(b))))
+            if got != (ref < 0, ref == 0, ref > 0, ref):
+                ctx.violation('operators-inconsistent-str-subclass-operand', '%r (%s) vs str subclass %r: %r, ref %d' % (a, hows[i], b, got, ref), case)
+                return
+        # the objects as members of collections: sorted / min / max agree with the reference order, set / dict fold equal ones
+        key = functools.cmp_to_key(dpkgver.compare)
+        want = sorted(vs, key=key)
+        got = [str(o) for o in sorted(objs)]
+        ctx.mon('M.derived.sorted')
+        if [key(x) for x in got] != [key(x) for x in want] or sorted(got) != sorted(want):
+            ctx.violation('sorted-disagrees-with-dpkg-order', 'sorted(%r) [made via %r] = %r, reference %r' % (vs, hows, got, want), case)
+            return
+        if dpkgver.compare(str(min(objs)), want[0]) != 0 or dpkgver.compare(str(max(objs)), want[-1]) != 0:
+            ctx.violation('min-max-disagree-with-dpkg-order', 'min/max of %r [made via %r] = %r / %r' % (vs, hows, str(min(objs)), str(max(objs))), case)
+            return
+        classes = 1 + sum(1 for x, y in zip(want, want[1:]) if dpkgver.compare(x, y) != 0)
+        d = {}
+        for o in objs:
+            d[o] = d.get(o, 0) + 1
+        if len(set(objs)) != classes or len(d) != classes or sum(d.values()) != len(objs):
+            ctx.violation('set-or-dict-of-versions-miscounts-equal-ones', '%r [made via %r]: %d distinct by dpkg, set %d, dict %d' % (
+                vs, hows, classes, len(set(objs)), len(d)), case)
+            return
+        for s, h, o in zip(vs, hows, objs):
+            if str(o) != s:
+                ctx.violation('operand-changed-by-comparison', 'after the comparisons the %s object for %r reads %r' % (h, s, str(o)), case)
+                return
     elif kind == 'window':
         for t in itertools.permutations(case['vs'], 3):
             check_triple(ctx, *t)
